@@ -398,6 +398,29 @@ theorem reassembly_exact {fl : R → Int} {sqrt : R → R} {P : BottomUp.Params 
   · rintro ⟨k, e, i, j, hke, hT, hp⟩
     exact ⟨((e.1, i), (e.2, j)), hc ▸ (h1 _ _).mpr ⟨k, e, i, j, hke, hT, rfl, rfl⟩, hp⟩
 
+/-- **A frame without any detected peak** (no visible keypoint: empty or fully occluded frame)
+yields no instance — whatever the other frames of the batch contain (`forward` treats the samples
+one by one), for every tree skeleton, every `min_instance_peaks`, any PAF tensor. -/
+theorem empty_frame_no_instances {fl : R → Int} {sqrt : R → R} {P : BottomUp.Params R} {paf : Paf R}
+    {lsa : Lsa R} {r : Nat} (A : Arbo P.edges r) (hne : P.edges ≠ []) (S : LsaSpec lsa) :
+    ∃ o, forwardSample fl (fun i => (i : R)) sqrt P paf [] lsa = .ok o ∧
+      o.rows = [] ∧ o.scores = [] ∧ o.conns = [] ∧ o.assign = [] := by
+  obtain ⟨order, ho, _⟩ := C17.toposort_perm A hne
+  obtain ⟨out, h, hc, ha, hi⟩ := BottomUp.grouping_empty (P := groupParams P order) (r := r)
+    (scores := scoreTables [] P.edges (scoreCands fl (fun i => (i : R)) sqrt P paf [])) A ho
+    (LsaSpec.ok S false _ _ _)
+  have hf : ∃ o, forwardSample fl (fun i => (i : R)) sqrt P paf [] lsa = .ok o ∧
+      o.rows.length = out.insts.length ∧ o.scores = out.insts.map (·.score) ∧
+      o.conns = out.conns ∧ o.assign = out.assign := by
+    simp only [forwardSample, ho, List.map_nil]
+    rw [h]
+    exact ⟨_, rfl, by simp, rfl, rfl, rfl⟩
+  obtain ⟨o, h0, h1, h2, h3, h4⟩ := hf
+  refine ⟨o, h0, ?_, ?_, h3.trans hc, h4.trans ha⟩
+  · rw [hi] at h1
+    exact List.eq_nil_of_length_eq_zero h1
+  · rw [h2, hi]; rfl
+
 /-! ## max_instances -/
 
 omit [Field R] [IsStrictOrderedRing R] in
